@@ -87,6 +87,12 @@ type FileRestorer struct {
 	nodeData        map[*ast.Object]dst.Node // Objects that have a ast.Node Data (look up after file has been rendered)
 	cursorAtNewLine token.Pos                // The cursor position directly after adding a newline decoration (or a line comment which ends in a "\n"). If we're still at this cursor position when we add a line space, reduce the "\n" by one.
 	packageNames    map[string]string        // names in the code of all imported packages ("." for dot-imports)
+
+	// The cursor position directly after a multi-line literal. The parser never treats a comment
+	// that follows on the line where a multi-line literal ends as the line comment of a spec or
+	// field (it compares with the line the literal starts on), so a comment added at this position
+	// must not be stored in a Comment field.
+	cursorAfterMultiLineLiteral token.Pos
 }
 
 // Print uses format.Node to print a *dst.File to stdout
@@ -127,6 +133,7 @@ func (r *FileRestorer) RestoreFile(file *dst.File) (*ast.File, error) {
 	r.packageNames = map[string]string{}
 	r.comments = []*ast.CommentGroup{}
 	r.cursorAtNewLine = 0
+	r.cursorAfterMultiLineLiteral = 0
 	r.packageNames = map[string]string{}
 
 	r.base = r.Fset.Base() // base is the pos that the file will start at in the fset
@@ -586,6 +593,7 @@ func (r *FileRestorer) applyLiteral(text string) {
 			r.lines = append(r.lines, lineOffset)
 		}
 	}
+	r.cursorAfterMultiLineLiteral = r.cursor + token.Pos(len(text))
 }
 
 func (r *FileRestorer) hasCommentField(n ast.Node) bool {
@@ -655,7 +663,8 @@ func (r *FileRestorer) applyDecorations(node ast.Node, name string, decorations 
 
 		// if the decoration is a comment, add it and advance the cursor
 		if isComment {
-			if firstLine && end && r.hasCommentField(node) {
+			afterMultiLineLiteral := r.cursor == r.cursorAfterMultiLineLiteral
+			if firstLine && end && r.hasCommentField(node) && !afterMultiLineLiteral {
 				// for comments on the same line as the end of a node that has a Comment field, we
 				// add the comment to the node instead of the file.
 				r.addCommentField(node, r.cursor, d)
@@ -663,6 +672,9 @@ func (r *FileRestorer) applyDecorations(node ast.Node, name string, decorations 
 				r.comments = append(r.comments, &ast.CommentGroup{List: []*ast.Comment{{Slash: r.cursor, Text: d}}})
 			}
 			r.cursor += token.Pos(len(d))
+			if afterMultiLineLiteral {
+				r.cursorAfterMultiLineLiteral = r.cursor
+			}
 		}
 
 		// for newline decorations and also line-comments, add a newline
